@@ -37,6 +37,13 @@ impl<'a> SendTransactionsProofProcess<'a> {
 
     pub(crate) fn execute(self) -> Status {
         let status = self.execute_internally();
+        if !status.is_ok() {
+            // Nothing of a rejected response is used and its sender is about to be removed with
+            // an empty request slot: the fetches of the request have to be sent again.
+            self.protocol
+                .peers()
+                .mark_fetching_txs_timeout(self.peer_index);
+        }
         self.protocol
             .peers()
             .update_txs_proof_request(self.peer_index, None);
